@@ -72,7 +72,7 @@ func (m *Monitors) fail(prop string, format string, args ...interface{}) {
 			detail = "K5: " + detail
 		case m.k2 && (prop == "C10" || prop == "C11"):
 			detail = "K2: " + detail
-		case m.rel != nil && m.rel.k3any && (prop == "C01" || prop == "C16" || prop == "C12" || prop == "C11"):
+		case m.rel != nil && m.rel.k3any && (prop == "C01" || prop == "C16" || prop == "C12" || prop == "C11" || prop == "C13"):
 			// aggregate state predicates cannot name the context: once the module-service
 			// path (K3) ran in this history its unbacked earning / leftover records persist
 			detail = "K3: " + detail
@@ -433,6 +433,7 @@ func samePromos(rawLine string, p types.Pricing) bool {
 func (m *Monitors) after(o *Op, res string, pre *Pre) {
 	bal, esc, dep, fee, sup := m.balances()
 	s := m.r.snap
+	m.noteK3(s)
 	m.static(s, esc, dep)
 	m.evals["C20"]++
 	if res == "panic" {
